@@ -149,14 +149,14 @@ add("type_schema_d3", (3,), [("t", I), ("n", I), ("a", I)],
 # object members of every scalar kind (null, booleans, strings), not only integers
 add("properties_scalar_members", ALL, [("t", I), ("c", SC)],
     lambda d, t, c: {"properties": {"a": {"type": ty(d, t)}, "b": {"enum": [c, 1]}}, "additionalProperties": {"type": "null"}},
-    ["obj_scalar"], pre=lambda d, t, c: tyok(d, t))
+    ["obj_scalar#01"], pre=lambda d, t, c: tyok(d, t))
 add("patternProperties_scalar_members", ALL, [("t", I)],
     lambda d, t: {"patternProperties": {"^a": {"type": ty(d, t)}, "b$": {"disallow": ["null"]} if d == 3 else {"not": {"type": "null"}}}},
-    ["obj_scalar"], pre=lambda d, t: tyok(d, t))
+    ["obj_scalar#01"], pre=lambda d, t: tyok(d, t))
 add("items_scalar_members", ALL, [("t", I), ("c", SC)], lambda d, t, c: {"items": [{"type": ty(d, t)}, {"enum": [c]}], "additionalItems": {"type": "null"}},
-    ["arr_scalar"], pre=lambda d, t, c: tyok(d, t))
+    ["arr_scalar#01"], pre=lambda d, t, c: tyok(d, t))
 add("dependencies_scalar_members", ALL, [("t", I)], lambda d, t: {"dependencies": {"a": ["b"], "b": {"properties": {"a": {"type": ty(d, t)}}}}},
-    ["obj_scalar"], pre=lambda d, t: tyok(d, t))
+    ["obj_scalar#01"], pre=lambda d, t: tyok(d, t))
 
 # the empty schema {} in every subschema position (it is falsy in Python: a truthiness test instead of a type test changes its meaning)
 def _es(e, a):
@@ -172,7 +172,7 @@ add("empty_dependencies", ALL, [("e", B), ("a", I)], lambda d, e, a: {"dependenc
 add("empty_not", D4P, [("e", B), ("a", I)], lambda d, e, a: {"not": _es(e, a)}, NUM)
 add("empty_anyOf_oneOf", D4P, [("e", B), ("a", I)], lambda d, e, a: {"anyOf": [_es(e, a), {"minimum": a}], "oneOf": [{"maximum": a}, _es(e, a)]}, NUM)
 add("empty_allOf", D4P, [("e", B), ("a", I)], lambda d, e, a: {"allOf": [_es(e, a), {}]}, NUM)
-add("empty_contains_names", D6P, [("e", B), ("a", I)], lambda d, e, a: {"contains": _es(e, a), "propertyNames": _es(e, a)}, ["arr_int", "obj_int"])
+add("empty_contains_names", D6P, [("e", B), ("a", I)], lambda d, e, a: {"contains": _es(e, a), "propertyNames": _es(e, a)}, ["arr_int", "obj_int"], tags={"obj_int": ("valid",)})
 add("empty_if", (7,), [("e", B), ("f", B), ("a", I)], lambda d, e, f, a: {"if": _es(e, a), "then": _es(f, a + 1), "else": _es(not f, a - 1)}, NUM)
 add("empty_extends_disallow_d3", (3,), [("e", B), ("a", I)], lambda d, e, a: {"extends": _es(e, a), "disallow": [_es(not e, a)], "type": [_es(e, a - 1), "string"]}, NUM)
 add("empty_enum_required", D4P, [("e", B)], lambda d, e: {"required": [] if e else ["a"], "dependencies": {"a": [] if e else ["b"]}}, OBJ)
